@@ -744,7 +744,31 @@ VARIANTS = [
      ["        self.block_size = block_size\n        self._rng = np.random.default_rng(0)\n",
       "        real_part = self._rng.standard_normal((rows, cols))\n"],
      ("F", R1, "_generate_random_sketch", "generator self._rng is drawn from")),
+    ("in-place sparse clean-up of the constructor's arguments (tocsr() returns the same object for CSR input)",
+     "quatica/utils.py", r"(        self\.k = k\.tocsr\(\)\n)",
+     "\\1        for comp in (self.real, self.i, self.j, self.k):\n            comp.eliminate_zeros()\n",
+     ("F", R2, "SparseQuaternionMatrix.__init__", "parameter 'real' written: in-place method .eliminate_zeros()")),
+    ("public function building the sparse matrix from its parameters inherits the constructor's write", "quatica/utils.py",
+     [r"(        self\.k = k\.tocsr\(\)\n)", r"# Q-GMRES FUNCTIONS\n"],
+     ["\\1        self.k.sort_indices()\n",
+      "# Q-GMRES FUNCTIONS\ndef sparse_from_planes(real, i, j, k, shape):\n    return SparseQuaternionMatrix(real, i, j, k.asformat('csr'), shape)\n"],
+     ("F", R2, "sparse_from_planes", "parameter 'k' written: passed to SparseQuaternionMatrix.__init__(k)")),
+    ("ndarray in-place method on a view of the argument", "quatica/tensor.py",
+     r"(def tensor_frobenius_norm\(T: np\.ndarray\) -> float:\n)", "\\1    np.ascontiguousarray(T).ravel().sort()\n",
+     ("F", R2, "tensor_frobenius_norm", "parameter 'T' written: in-place method .sort()")),
     # ---- behaviour-preserving: must stay silent
+    ("sparse clean-up on copies of the planes", "quatica/utils.py",
+     [r"        self\.real = real\.tocsr\(\)\n", r"        self\.i = i\.tocsr\(\)\n", r"        self\.j = j\.tocsr\(\)\n",
+      r"        self\.k = k\.tocsr\(\)\n"],
+     ["        self.real = real.tocsr().copy()\n", "        self.i = i.tocsr().copy()\n", "        self.j = j.tocsr().copy()\n",
+      "        self.k = k.tocsr().copy()\n        for comp in (self.real, self.i, self.j, self.k):\n            comp.eliminate_zeros()\n"],
+     ("S",)),
+    ("sparse clean-up on a freshly built csr_matrix / sorted_indices() copy", "quatica/utils.py",
+     r"(        self\.k = k\.tocsr\(\)\n)",
+     "\\1        probe = sparse.csr_matrix(real.toarray())\n        probe.eliminate_zeros()\n"
+     "        probe2 = self.i.sorted_indices()\n        probe2.sum_duplicates()\n", ("S",)),
+    ("sparse matrix built from a dense view, then pruned in place", "quatica/utils.py",
+     r"(        A_k = sparse\.csr_matrix\(A_comp\[\.\.\., 3\]\)\n)", "\\1        A_k.eliminate_zeros()\n", ("S",)),
     ("module-level constants that are only read", "quatica/utils.py",
      r"def quat_eye\(n: int\) -> np\.ndarray:\n",
      "_UNITS = (\"real\", \"i\", \"j\", \"k\")\n_ORDER = {\"fro\": 0}\n_ONE = np.ones(1)\n\n\n"
